@@ -41,6 +41,14 @@ def spec(chk, quick):
             cheap.append("D %s %d %d 1 %.17g %.17g" % (iso, level, mode, 0.0, max(0.03125, int(e0 * 32) / 64.0)))
     for (iso, level, mode) in rng.sample(exp_cells, 24 if quick else 200):
         costly.append("D %s %d %d 0 0 0" % (iso, level, mode))
+    # windows on the quadrature-heavy modes (per-event spectrum tables live in the instance): lower bound > 0, 1/64 MeV lattice
+    for (iso, level, mode) in rng.sample(exp_cells, 32 if quick else 300):
+        steps = int(genmon.e0_of(table, iso, level, mode) * 64)
+        if steps < 6:
+            continue
+        a = rng.randint(1, steps // 2)
+        b = a + rng.randint(2, max(3, steps // 3))
+        costly.append("D %s %d %d 1 %.17g %.17g" % (iso, level, mode, a / 64.0, b / 64.0))
     return cheap, costly
 
 
@@ -173,14 +181,15 @@ def main():
     st = statics_monitor(chk, quick)
     evals += st.get("shots", 0) + st.get("injected_shots", 0)
     chk.require(nconf >= 200, "only %d configurations explored" % nconf)
-    chk.require(kinds >= 9, "only %d history kinds exercised" % kinds)
+    chk.require(kinds >= 10, "only %d history kinds exercised" % kinds)
     chk.coverage.update({
         "evaluations": evals,
         "distinct_nontrivial": nconf * kinds,
         "rule": "for each configuration and tape T the canonical event (fresh generator, fresh event, first shot) is compared bit for bit with the "
                 "event after each history: k prior shots (1, 7, 1000), reused event object, event pre-filled with 0..150 junk particles, capacity "
                 "forced to 1..9/16/200, moved-from event, other instances (incl. failed and gA initialisations) created/shot/reset/destroyed in between, "
-                "reset()+identical re-configuration, initialisation with another deviate source, two live twins alternating; static-storage monitor: the "
+                "reset()+identical re-configuration, initialisation with another deviate source, two live twins alternating, and a stream of >=300 tapes shot "
+                "forwards by one instance and backwards by its twin (every event of the stream compared); static-storage monitor: the "
                 "writable static storage of libBxDecay0.so (.data/.bss and this thread's TLS block) is snapshotted after every shot of a pool of steered "
                 "runs; words that change more than once are mutable static state; their observed end-of-shot values are injected before every pool shot and "
                 "any dependence is confirmed by real replays ([A; X] vs [X]) in fresh processes; "
